@@ -37,6 +37,18 @@ class PyCore:
         )
         self.observer = rope.base.resourceobserver.FilteredResourceObserver(observer)
         self.project.add_observer(self.observer)
+        # What an import resolves to depends on which files and folders exist,
+        # not only on the modules that are cached: creating, moving or removing
+        # any resource can change the answer of `find_module()`.
+        callback = self._structure_changed
+        self.project.add_observer(
+            rope.base.resourceobserver.ResourceObserver(
+                moved=callback, created=callback, removed=callback, validate=callback
+            )
+        )
+
+    def _structure_changed(self, resource, new_resource=None):
+        self.module_cache.forget_all_data()
 
     def _init_automatic_soa(self):
         if not self.automatic_soa:
